@@ -11,14 +11,16 @@ Open Scope list_scope.
    dimensions, any attribute strings - not only single faults of valid files) the
    model of cfdm.read returns.  Every d[k], l[0] and l.pop(0) of the anchored code is
    a partial operation in the model, so this proof is the audit of their guards. *)
-Theorem C13_read_total : forall ds e, read_skel ds <> RErr e.
+(* (wf_dims: every variable spans dimensions of the file - true of any netCDF dataset; needed
+   since the creation of a domain axis looks the size of its dimension up) *)
+Theorem C13_read_total : forall ds, wf_dims ds -> forall e, read_skel ds <> RErr e.
 Proof. exact read_total. Qed.
 Print Assumptions C13_read_total.
 
 (* The same for one variable turned into a field, and for the two places that
    raised at the pinned commit: the formula_terms check and the cell_methods parser,
    for every attribute string. *)
-Theorem C13_field_total : forall ds v, In v (a_vars ds) -> forall e, field_skel false ds v <> RErr e.
+Theorem C13_field_total : forall ds v, wf_dims ds -> In v (a_vars ds) -> forall e, field_skel false ds v <> RErr e.
 Proof. exact field_skel_total. Qed.
 Print Assumptions C13_field_total.
 
@@ -274,3 +276,67 @@ Theorem C13_closed_balanced : forall steps e i,
   count_ev (is_close i) (read_trace steps e) = count_ev (is_open i) (read_trace steps e).
 Proof. exact read_closed. Qed.
 Print Assumptions C13_closed_balanced.
+
+(* ------------------------------------------------------------------ third pass *)
+
+(* All files are closed, external files included (cfdm.read(parent, external=...)): whatever the
+   body opens, and for every scan of an external file - successful whether or not the file holds
+   a wanted variable, failing before or after it has opened the file - and whether the body then
+   returns or raises, every dataset is closed exactly as often as it was opened (fix3-2). *)
+Theorem C13_closed_balanced_external : forall steps e i,
+  count_ev (is_close i) (xread_trace VFixed steps e) = count_ev (is_open i) (xread_trace VFixed steps e).
+Proof. exact xread_closed. Qed.
+Print Assumptions C13_closed_balanced_external.
+
+(* _check_compress: the verdict is True exactly when the attribute names at least one dimension
+   and EVERY name, in any position, is a dimension of the file *)
+Theorem C13_check_compress_sound : forall dims parsed,
+  fst (check_compress dims parsed) = true <-> parsed <> [] /\ forall d, In d parsed -> mem d dims = true.
+Proof. exact check_compress_sound. Qed.
+Print Assumptions C13_check_compress_sound.
+
+(* ... hence no registered gathered compression implies a dimension that is not in the file, and
+   the dimensions of every variable, expanded, are dimensions of the file: the size lookups of
+   the domain axes cannot fail (this is the step of C13_read_total that the seeded
+   _check_compress breaks) *)
+Theorem C13_gathered_dimensions_exist : forall ds n d, wf_dims ds -> ncdims ds n = ROk d -> in_dims ds d.
+Proof. exact ncdims_in_dims. Qed.
+Print Assumptions C13_gathered_dimensions_exist.
+
+Theorem C13_gathered_example :
+  option_map f_cons (field_of_name (read_skel (ds_gathered "lat lon")) "gq") =
+    Some [mkCons CDim "lat" None; mkCons CDim "lon" None] /\
+  option_map f_cons (field_of_name (read_skel (ds_gathered "nope lon")) "gq") =
+    Some [mkCons CDim "landpoint" None] /\
+  field_of_name (read_skel (ds_gathered "lat lon")) "landpoint" = None /\
+  field_of_name (read_skel (ds_gathered "nope lon")) "landpoint" = None.
+Proof. exact gathered_example. Qed.
+Print Assumptions C13_gathered_example.
+
+(* Grouped datasets (fix3-5): mapping the references back through the flattener's table is total;
+   it agrees with the strict lookup whenever every reference was resolved, and a reference that
+   was not resolved stays in the list - a name that is not in the file, which the checks of the
+   attribute then report like any missing variable (C13_coordinates_missing_name etc.) *)
+Theorem C13_group_references_resolved : forall m toks,
+  (forall t, In t toks -> assoc t m <> None) -> resolve_head m toks = ROk (resolve m toks).
+Proof. exact resolve_head_ok. Qed.
+Print Assumptions C13_group_references_resolved.
+
+Theorem C13_group_reference_unresolved_kept : forall m toks t,
+  In t toks -> assoc t m = None -> In t (resolve m toks).
+Proof. exact resolve_keeps. Qed.
+Print Assumptions C13_group_reference_unresolved_kept.
+
+(* The report bookkeeping (fix3-7): a message about the relation between a variable and one
+   parent (such as "spans incorrect dimensions") is found in the report of that parent only,
+   whatever messages are emitted and whatever constructs are copied from the caches afterwards. *)
+Theorem C13_report_no_leak : forall evs p q m, In (p, (q, m, false)) (bk_run false evs [] []) -> p = q.
+Proof. intros evs. apply bk_run_ok. split; intros; contradiction. Qed.
+Print Assumptions C13_report_no_leak.
+
+(* The cache of auxiliary coordinates (fix3-8): every parent gets the construct that is made
+   with its own geometry container, whatever was cached before. *)
+Theorem C13_aux_cache_by_geometry : forall reqs cache,
+  aux_cache_run true reqs cache = map (fun r => (snd r, fst r)) reqs.
+Proof. exact aux_cache_by_geometry. Qed.
+Print Assumptions C13_aux_cache_by_geometry.
